@@ -100,7 +100,10 @@ def rand_value(rng, dtype, hostile=0.5):
         pool = ["1", "2.5", "x", "a b", "ä", "-3", "0", "left", "1024", "768"]
         if rng.random() < hostile * 0.3:
             pool = pool + ["a,b", "c d ", "q\"r", "[z]"]
-        return [rng.choice(pool) for _ in range(n)]
+        vals = [rng.choice(pool) for _ in range(n)]
+        if n > 1 and rng.random() < 0.12:
+            vals[rng.choice([0, n - 1, n - 1])] = ""        # an empty element (first or last) is legal
+        return vals
     raise ValueError(dtype)
 
 
@@ -243,7 +246,13 @@ def build_prop(spec, parent=None):
     # the other documented way of naming a type
     if isinstance(dtype, str) and hasattr(odml.DType, dtype) and sum(map(ord, spec["name"] or "")) % 3 == 0:
         dtype = getattr(odml.DType, dtype)
-    return odml.Property(name=spec["name"], values=list(spec["values"]) if spec["values"] else None,
+    values = list(spec["values"]) if spec["values"] else None
+    if values and isinstance(dtype, str) and dtype.endswith("-tuple") and sum(map(ord, spec["name"] or "")) % 2 == 0 and \
+            all(isinstance(v, (list, tuple)) and all(isinstance(e, str) and e == e.strip() and not set(e) & set(";,()[]")
+                                                     for e in v) for v in values):
+        # the other way of handing over n-tuples: the documented text form "(a;b)"
+        values = ["(%s)" % ";".join(v) for v in values]
+    return odml.Property(name=spec["name"], values=values,
                          dtype=dtype, oid=spec.get("id"), parent=parent, **kw)
 
 
